@@ -216,7 +216,7 @@ func zeroOfSort(s Sort) Term {
 	switch s.K {
 	case KBool:
 		return False
-	case KBV:
+	case KBV, KInt:
 		return BVInt(0, s.W, s.Signed)
 	case KFP:
 		if s.W == 32 {
